@@ -96,6 +96,11 @@ def _name_is_usable(v: str) -> bool:
 def f_name(setting, badkind):
     def fn(c: Ctx):
         v = BAD_NAMES[badkind]
+        if setting in NAME_SETTINGS_SCHEMA:
+            # the names are checked whatever the (legal) spelling of the target file type
+            suffix = c.ch.pick("fault.suffix", [".py", ".PY", ".Py", ".graphql", ".GQL", ".gql"])
+            c.cfg["target_file_path"] = os.path.join("out", "schema_target" + suffix)
+            c.mat = dict(c.mat, targets=[os.path.join(c.root, "out", "schema_target" + suffix)])
         c.cfg[setting] = v
         c.expect = ("valid",) if _name_is_usable(v) else ("invalid", ("InvalidConfiguration",), v)
         c.note = "%s=%r" % (setting, v)
@@ -268,9 +273,28 @@ def f_no_fault(c):
 
 
 def f_deprecated_section(c):
-    """The documented (deprecated) top-level [ariadne-codegen] section is still accepted."""
+    """The documented (deprecated) top-level [ariadne-codegen] section is still accepted - also next to other tools' tables."""
     c.raw_config = worlds.toml_dumps(c.cfg).replace("[tool.ariadne-codegen", "[ariadne-codegen")
+    if c.ch.chance("fault.othertool", 2, 3):
+        c.raw_config = "[tool.black]\nline-length = 100\n\n" + c.raw_config + "\n[tool.isort]\nprofile = \"black\"\n"
     c.expect = ("valid",)
+
+
+def f_unrelated_tables(c):
+    """A pyproject.toml normally holds many other tables."""
+    c.raw_config = ("[project]\nname = \"demo\"\nversion = \"0.1\"\n\n[tool.black]\nline-length = 100\n\n" + worlds.toml_dumps(c.cfg)
+                    + "\n[tool.pytest.ini_options]\naddopts = \"-q\"\n")
+    c.expect = ("valid",)
+
+
+def f_upper_suffix(c):
+    """The target file type is matched case-insensitively (schema.PY, out.GraphQL)."""
+    cur = c.cfg["target_file_path"]
+    stem, ext = os.path.splitext(cur)
+    c.cfg["target_file_path"] = stem + c.ch.pick("fault.upper", [ext.upper(), ext.capitalize()])
+    c.mat = dict(c.mat, targets=[os.path.join(c.root, c.cfg["target_file_path"])])
+    c.expect = ("valid",)
+f_upper_suffix.applies = "graphqlschema"
 
 
 def f_comments_boolean(c):
@@ -627,7 +651,8 @@ OP_RULES = ["unknown_field", "leaf_with_selection", "object_without_selection", 
 
 FAULTS: Dict[str, Callable] = {
     "control:no_fault": f_no_fault, "control:unknown_keys": f_unknown_keys, "control:reordered_keys": f_reordered_keys,
-    "control:graphql_comments": f_graphql_comments, "control:header_var_set": f_header_var_set, "control:deprecated_section": f_deprecated_section,
+    "control:graphql_comments": f_graphql_comments, "control:header_var_set": f_header_var_set, "control:deprecated_section": f_deprecated_section, "control:unrelated_tables": f_unrelated_tables,
+    "control:upper_suffix": f_upper_suffix,
     "control:comments_boolean": f_comments_boolean,
     "config:no_schema_source": f_no_schema_source, "config:schema_path_missing": f_schema_path_missing,
     "config:queries_path_missing": f_queries_path_missing, "config:queries_path_absent": f_queries_path_absent,
